@@ -193,7 +193,7 @@ def case(cid, rng):
 def gen(args):
     wid, n, sd = args
     rng = np.random.default_rng([sd, wid, 1717])
-    return [case("w%d-%d" % (wid, t), rng) for t in range(n)]
+    return [case("w%d-%d" % (wid, t), rng) for t in core.timed(range(n))]
 
 
 KEYS = ("id", "D", "w", "G", "cell", "fp", "raised", "errclass", "labels", "gw", "H", "finite", "ld", "score", "routes", "reach", "ldfinite")
